@@ -32,6 +32,11 @@ MatchFrom(m, j, tb, i, prm) ==      \* can tokens j.. be matched to rows i.. ?
   ELSE IF tb[i].code = Tok(m, j) /\ Reportable(tb[i], prm) THEN MatchFrom(m, j + 1, tb, i + 1, prm)
   ELSE MatchFrom(m, j, tb, i + 1, prm)
 C01_Stands(m, tb, prm) == IsTokenMsg(m) => MatchFrom(m, 1, tb, 1, prm)
+(* "no group stands for a zero-okta layer", the okta being what the hits imply (C03), not what the table says *)
+TrueOktaSet(r, d, idv, prm) == OktaSet(Cardinality(MeasOf(d, MemIdx(idv, r.cid))), TotalMeas(d), prm.h0, prm.h8)
+C01_NotZeroOkta(m, tb, d, idv, prm) ==
+  IsTokenMsg(m) => \A j \in 1..TokCount(m) :
+     \E i \in Idx(tb) : tb[i].code = Tok(m, j) /\ tb[i].sig /\ TrueOktaSet(tb[i], d, idv, prm) # {0}
 
 (* ================= C02: lowest layer, ceiling, NCD / NSC =============== *)
 BelowRows(tb, prm) == {i \in Idx(tb) : Reportable(tb[i], prm)}
